@@ -225,6 +225,24 @@ PROPS = {
         ],
         "assumptions": [],
     },
+    "C16": {
+        "required_theorems": ["c16_repeat_algebra", "c16_underflow_only_when_done", "c16_infinite", "c16_vector",
+                              "c16_vector_zero", "c16_marker_tags"],
+        "runs": [
+            {"sub": "sources", "quick": ["--seed", "{seed}", "--cases", 400, "--files", 80, "--depth", 6],
+             "thorough": ["--seed", "{seed}", "--cases", 20000, "--files", 3000, "--depth", 8], "timeout": 20000},
+        ],
+        "rule": "Repeat API: every call sequence over {again, done, count} to the given depth from finite(0..3) and infinite "
+                "(exhaustive); VectorSource: data length 0..3000 x repeat {0,1,2,3,inf} x random work/drain schedules through a "
+                "one-page stream, compared call by call (verdict, produced, tags) with the Lean model; FileSource and SigMFSource "
+                "(recording files): same grid on real temp files, total output must equal data x repeat, EOF exactly at the end, "
+                "nothing after EOF, no EOF and periodic output for infinite. distinct = distinct request.",
+        "trusted_base": GLOBAL_TB + [
+            "FileSource/SigMFSource are checked against the spec on the real code, not modelled in Lean (read() segmentation is C14)",
+            "u64 arithmetic with overflow checks on (release profile of the crate)",
+        ],
+        "assumptions": [],
+    },
 }
 
 MANIFEST_TEXT = {
@@ -352,6 +370,17 @@ MANIFEST_TEXT = {
         "design_ref": "DESIGN.md section 2, C12",
         "note": "The unfiltered-tags defects in Skip/FirFilter/Hilbert/Delay/FftFilter/Cma were repaired by fix: commits.",
         "technique": "Lean 4 proof for the sync family + tag-multiset differential on real blocks",
+    },
+    "C16": {
+        "text": "Lean 4 theorems: the Repeat counter algebra (k <= n calls of again() succeed, continue-flags, count, done iff "
+                "exhausted, underflow iff called when done, infinite never done) and, for VectorSource, for EVERY consumption "
+                "schedule the cumulative output is whole repetitions plus a prefix of the data and an EOF answer implies exactly n "
+                "repetitions were emitted; marker tags only on the first sample of a repetition. Tied to the code by exhaustive "
+                "Repeat call sequences and call-by-call VectorSource correspondence; FileSource/SigMFSource are checked on the "
+                "real code against the same specification.",
+        "design_ref": "DESIGN.md section 2, C16",
+        "note": "The repeat(0) defects of FileSource/SigMFSource and the VectorSource::first duplication were repaired by fix: commits.",
+        "technique": "Lean 4 proof (induction over consumption schedules) + exhaustive API correspondence + spec check on real files",
     },
 }
 
